@@ -152,7 +152,19 @@ def check_line_primitive(rep, src, rule, sites, why, minimum=1):
         rep.saw_func(f)
         fnode, _ = normalize.inline_helpers(f)
         found = 0
-        for c in ast.walk(fnode):
+        # the function itself and the one-parameter functions of the package it hands a text to (line-splitting helpers)
+        nodes = list(ast.walk(fnode))
+        for c in list(nodes):
+            if isinstance(c, ast.Call) and len(c.args) == 1 and not c.keywords:
+                name = c.func.id if isinstance(c.func, ast.Name) else None
+                for m in (src.modules.values() if name else []):
+                    h = m.funcs.get(name)
+                    if h is not None and len(h.params()) == 1 and h.node is not f.node:
+                        nodes += [(x, h) for x in ast.walk(h.node)]
+        for c in nodes:
+            owner = f
+            if isinstance(c, tuple):
+                c, owner = c
             if not isinstance(c, ast.Call):
                 continue
             fn = c.func
@@ -174,12 +186,37 @@ def check_line_primitive(rep, src, rule, sites, why, minimum=1):
                 continue
             found += 1
             n += 1
+            via = '' if owner is f else ' (in %s, called from %s)' % (owner.qual, f.qual)
             if okay:
-                rep.ok(rule, f.site, 'line primitive `%s`' % what, 'only a newline ends a line')
+                rep.ok(rule, f.site, 'line primitive `%s`%s' % (what, via), 'only a newline ends a line')
             else:
-                rep.fail(rule, f.site, 'line primitive `%s`' % what, '%s: `%s` also ends a line at VT, FF, FS, GS, RS, U+0085, U+2028, U+2029 and a lone CR, e.g. the text '
-                         '"a\\u2028b" is cut into two lines (a file object with the same text yields one)' % (why, what), where='%s:%d' % (f.module.relpath, c.lineno))
+                rep.fail(rule, f.site, 'line primitive `%s`%s' % (what, via), '%s: `%s` also ends a line at VT, FF, FS, GS, RS, U+0085, U+2028, U+2029 and a lone CR, e.g. the text '
+                         '"a\\u2028b" is cut into two lines (a file object with the same text yields one)' % (why, what), where='%s:%d' % (owner.module.relpath, c.lineno))
         if not found:
             raise AnalysisError('%s: no line-splitting primitive found (the anchor moved?)' % f.site)
     if n < minimum:
         raise AnalysisError('only %d line primitives examined' % n)
+
+
+def is_line_split(src, e):
+    """does the expression cut a text into its lines?  `<text>.splitlines(...)`, `<text>.split('\\n')`, or a call of a function of the
+    package whose body does one of these to its single parameter (a line-splitting helper)"""
+    from ..core import norm
+    for c in ast.walk(e):
+        if not isinstance(c, ast.Call):
+            continue
+        if isinstance(c.func, ast.Attribute) and (c.func.attr == 'splitlines' or (c.func.attr == 'split' and c.args and isinstance(c.args[0], ast.Constant)
+                                                                                     and c.args[0].value in ('\n', b'\n'))):
+            return True
+        name = c.func.id if isinstance(c.func, ast.Name) else c.func.attr if isinstance(c.func, ast.Attribute) else None
+        if name is None or len(c.args) != 1:
+            continue
+        for m in src.modules.values() if hasattr(src, 'modules') else []:
+            fn = m.funcs.get(name)
+            if fn is not None and len(fn.params()) == 1:
+                p0 = fn.params()[0]
+                if any(isinstance(x, ast.Call) and isinstance(x.func, ast.Attribute) and norm(x.func.value) == p0
+                       and (x.func.attr == 'splitlines' or (x.func.attr == 'split' and x.args and isinstance(x.args[0], ast.Constant) and x.args[0].value in ('\n', b'\n')))
+                       for x in ast.walk(fn.node)):
+                    return True
+    return False
